@@ -443,7 +443,9 @@ class HistModel(e1_history.Model):
             drain(r)
             drain(x)
         elif k == 'add':
-            w.dynh[op[1]] = comps[op[1]].addHandler(handler('e')(_dyn))
+            # declared for three names, the only handler of its component for the first two (removing it whole has to
+            # work through every name)
+            w.dynh[op[1]] = comps[op[1]].addHandler(handler('h', 'i', 'e')(_dyn))
         elif k == 'rem':
             comps[op[1]].removeHandler(w.dynh[op[1]])
             w.dynh[op[1]] = None
